@@ -30,6 +30,7 @@ def run(ctx):
     l3(ctx, F, U)
     l4(ctx, F, U)
     l5(ctx, F)
+    l6(ctx, F)
 
 
 def const_of(t, F):
@@ -276,6 +277,49 @@ def l5(ctx, F):
               line=bad[0][0] if bad else fn["span"][0],
               what="the search driver contains a loop without a bounded trip count (a wait on the stop flag, an open-ended walk through the "
                    "table): a search that should end by itself may never answer", expected="for .. in a..b / a..=b only", found=bad or "%d loops" % n)
+
+
+def l6(ctx, F):
+    """L6 the game's move record is indexed from its end only as far back as a preceding length test allows: `record[len - k]` with a
+    literal k, 1 <= k <= K, under `len >= K` (an index computed as len + k, or len - 6 under len >= 5, panics on the search thread for
+    every game long enough to reach the test - the `go` then gets no bestmove)."""
+    g = mir.callgraph(F)
+    reach = [p for p in mir.reachable_fns(g, DRIVER) | {DRIVER} if p in F.fns and p.startswith("search::")]
+    n = 0
+    for p in sorted(reach):
+        fn = F.fn(p)
+        if not fn.get("hir"):
+            continue
+        body = fn["hir"]["body"]
+        sym = hir.Sym(hir.Env(fn["hir"], F), F)
+        for x, anc in hir.walk(body):
+            if x.get("k") != "Index":
+                continue
+            base = sym(x["e"])
+            if not any(isinstance(t_, tuple) and t_[:1] == ("call",) and str(t_[1]).endswith("Game::move_stack") for t_ in hir.subterms(base)):
+                continue
+            n += 1
+            idx = hir.canon(sym(x["i"]))
+            ln = None
+            k = None
+            if idx[:2] == ("bin", "-") and hir.sym_int(idx[3]) is not None and idx[2][:1] == ("call",) and str(idx[2][1]).endswith("::len"):
+                ln, k = idx[2], hir.sym_int(idx[3])
+            need = None
+            if ln is not None:
+                for gd in hir.guards_of(x, body, sym) or []:
+                    if gd[0] == "if" and gd[2] is True:
+                        for c_ in hir.conj(gd[1]):
+                            c_ = hir.canon(c_)
+                            # canon: a >= K is written K <= a ; a > K as K < a
+                            if c_[:1] == ("bin",) and c_[1] in ("<=", "<") and c_[3] == ln and hir.sym_int(c_[2]) is not None:
+                                lo = hir.sym_int(c_[2]) + (1 if c_[1] == "<" else 0)
+                                need = lo if need is None else max(need, lo)
+            ok = ln is not None and k is not None and need is not None and 1 <= k <= need
+            ctx.check("C08.L6", "move-record-indexed-within-its-length", ok, fn=p, file=fn["file"], line=hir.line(x),
+                      what="the game's move record is indexed with something other than `len - k` (1 <= k <= K) under a test `len >= K`: "
+                           "the index is out of range for some game lengths and the search thread panics",
+                      expected="record[len - k], 1 <= k <= K, guarded by len >= K", found={"index": hir.fmt(idx, 80), "length known to be at least": need})
+    ctx.floor("C08.L6", "indexings of the move record in the search", n, 1)
 
 
 def l4(ctx, F, U):
